@@ -159,6 +159,20 @@ def lua_program(rng, size, update60=False):
     return body
 
 
+def near_full_program(rng):
+    import refcompress
+    sub = rng.randrange(1 << 30)
+    lo, hi = AREA - 8 - 1000, AREA - 8 - 100
+    size = 36000
+    for _ in range(6):
+        t = lua_program(random.Random(sub), size)
+        c = len(refcompress.compress(t))
+        if lo <= c <= hi:
+            return t
+        size = max(2000, min(64000, int(size * ((lo + hi) // 2) / max(c, 1))))
+    return None
+
+
 def comment(filler):
     return b'--' + filler
 
@@ -238,6 +252,13 @@ def generate(tier, rng):
     for nlines in ((993, 1008) if quick else (992, 993, 994, 1008, 1500, 1986)):
         yield nxt(line * nlines, 'length-over-16-bits', dest='none' if nlines % 2 else 'random')
     yield nxt(line * 990 + b'-- ' + b'a' * 57 + b'\n', 'length-65535', dest='none')
+    # a compressible program that fills the code area almost completely (100..1000 bytes to spare by the harness's own
+    # compressor, refcompress.py): it fits, so it must be written and read back - a library compressor that has got
+    # worse (a shorter reach, a missed match) refuses it, and the refusal then stands next to a valid witness
+    for _ in range(1 if quick else 3):
+        t = near_full_program(rng)
+        if t is not None:
+            yield nxt(t, 'nearly-full-compressible', dest='none')
     # the same destination path written twice in one process: an earlier cart with another label is written there
     # first, then the file is replaced by the case's label picture (or removed) and the case's cart is written.
     # What is observed is the second write: it must not depend on the history of the path.
@@ -777,5 +798,6 @@ def search(ctx, budget):
         if 'limit' in c['tag'] or 'plain-fits' in c['tag']:
             continue
         cases.append(c)
+    cases.sort(key=lambda c: c['tag'] != 'nearly-full-compressible')      # the expensive, telling case first
     r = run_cases(cases[:120], {'monitor_exe': ctx.get('monitor_exe'), 'model_exe': None})
     return {'violations': r['violations'], 'evaluations': r['evaluations'], 'seconds': round(time.time() - t0, 1)}
